@@ -62,8 +62,9 @@ def gen_model(rng):
             u = [round(rng.uniform(0.01, 0.08), 5) for _ in range(3)] + [round(rng.uniform(-0.02, 0.02), 5) or 0.001 for _ in range(3)]
         else:
             u = [round(rng.uniform(0.01, 0.08), 5)]
+        height = ' %.2f' % rng.uniform(1, 300) if len(u) == 1 and rng.random() < 0.2 else ''     # isotropic atom of a structure solution: U, then the peak height
         atoms.append({'label': nm if resi[0] == 0 else '%s_%d' % (nm, resi[0]), 'element': el, 'xyz': xyz, 'occ': occ, 'part': part, 'u': u})
-        body.append('%s %d %s %s %s' % (nm, ELEMS.index(el) + 1, ' '.join('%.6f' % v for v in xyz), '%.5f' % sof, ' '.join('%.5f' % v for v in u)))
+        body.append('%s %d %s %s %s' % (nm, ELEMS.index(el) + 1, ' '.join('%.6f' % v for v in xyz), '%.5f' % sof, ' '.join('%.5f' % v for v in u) + height))
     lines = [('TITL %s in %s' % (rng.choice(['test', 'compound1', 'x']), name)) if rng.random() < 0.9 else 'TITL', 'CELL %s %s' % (wavelength, ' '.join(str(c) for c in cell)),
              'ZERR %s 0.001 0.002 0.003 0.01 0.02 0.03' % z, 'LATT %d' % latt] + ['SYMM ' + s for s in symms] + ['SFAC ' + ' '.join(ELEMS), 'UNIT ' + ' '.join(str(u) for u in unit)]
     if opt['temp'] is not None:
